@@ -4,7 +4,7 @@ import json
 
 CHECKS = {
     "C05": dict(
-        technique="TLA+ grammar (printer) vs code-shaped TLA+ parser model-checked by TLC; TLC-generated lines replayed into try_parse/iter; real try_parse calls on corpus lines validated by TLC trace spec; whole corpus files (up to 29k lines) through the real iterator, validated item by item against the RecordIter state machine (stateful trace spec, position in the bytes as only state)",
+        technique="TLA+ grammar (printer) vs code-shaped TLA+ parser model-checked by TLC; TLC-generated lines replayed into try_parse/iter; real try_parse calls on corpus lines validated by TLC trace spec; whole corpus files (up to 29k lines) through the real iterator, validated item by item against the RecordIter state machine (stateful trace spec, position in the bytes as only state); well-formed variants of the grammar: numerals with leading zeros (longer than any usize), headers padded with Unicode white space",
         text="TLC enumerates every record AST of the documented grammar over small alphabets (all optional-part combinations, 5 terminators, 9 documented malformations), checks the code-shaped TLA+ parser against the declarative printer/denotation, and every enumerated line is replayed into the real parser; corpus and mutated lines are validated in the other direction.",
         design="4 C05", note="Bounded alphabets; corpus lines constrained only when the TLA+ printer reproduces them; trusted: TLC, Json module, harness encoder (canary-checked)."),
     "C06": dict(
@@ -36,7 +36,7 @@ CHECKS = {
         text="Exhaustive over short texts of every line shape (mapped/unmapped throwable, cause variants incl. indented, mapped frames resolving to 1 or 2 frames, tab-indented, Native Method, '... n more', blank, look-alike, free text; CRLF and missing final newline) with the identity-under-empty-mapping law; seeded traces over generated and corpus mappings validated line by line.",
         design="4 C07", note="Bounded line alphabet; sampled traces. Trusted: TLC, Json module, harness (canary-checked)."),
     "C08": dict(
-        technique="TypedRemap + TypedLaw + typed/text agreement in TLA+, model-checked; the pinned 'dropped exception' variant must be refuted by TLC; typed traces (depth<=2/3, <=2 frames per level) replayed through remap_stacktrace_typed on mapper and cache; generated typed traces validated by TLC; runs of 3 and 4 identical frames",
+        technique="TypedRemap + TypedLaw + typed/text agreement in TLA+, model-checked; the pinned 'dropped exception' variant must be refuted by TLC; typed traces (depth<=2/3, <=2 frames per level) replayed through remap_stacktrace_typed on mapper and cache; generated typed traces validated by TLC; runs of 3 and 4 identical frames; scale probes (Trace_Scale): typed remapping of cause chains of 5000 levels must return, 200000 levels are known finding F8",
         text="All typed traces over {mapped, mapped with message, unmapped, other mapped} throwables x 5 frame kinds (resolve to 1, to 2, known method no entry, unknown class, no-range entry) up to depth 2 (quick) / 3 (thorough): exact result, preservation law and agreement of printed result with the text API on canonical traces.",
         design="4 C08", note="Canonical = top level has an exception or frame, cause levels have exceptions, frames carry files. Bounded + sampled."),
     "C16": dict(
@@ -44,11 +44,11 @@ CHECKS = {
         text="1554 valid descriptors (6 parameter types incl. class named I, ib/Long, nested non-ASCII arrays x 6 return types) exhaustively, single-character deletions/substitutions/insertions of those with <=1 (quick) / <=2 parameters, plus seeded descriptors and arbitrary Unicode strings where mapper = cache and the stated None classes are enforced.",
         design="4 C16", note="Strings outside the valid grammar and the three stated classes are only required to agree between mapper and cache."),
     "C17": dict(
-        technique="printers (declarative) and byte-level parsers (code-shaped) in StackTraceSyntax.tla; TLC checks Parse(Print(t))=t and Print(Parse(Print(t)))=Print(t) over alphabets containing the parsers' delimiters; same values through constructors/Display/try_parse; generated traces (depth<=5, <=20 frames, lines up to 2^64-1) validated by TLC; classes containing '/', '@', '$$'; files containing parentheses",
+        technique="printers (declarative) and byte-level parsers (code-shaped) in StackTraceSyntax.tla; TLC checks Parse(Print(t))=t and Print(Parse(Print(t)))=Print(t) over alphabets containing the parsers' delimiters; same values through constructors/Display/try_parse; generated traces (depth<=5, <=20 frames, lines up to 2^64-1) validated by TLC; classes containing '/', '@', '$$'; files containing parentheses; scale probes (Trace_Scale): parse / Display / == / Clone / Debug / Drop on cause chains of 5000 levels must return; 200000 levels: known finding F8 for the recursive ones",
         text="All traces over messages such as ': ', 'Caused by: x', 'at a.b(c:1)', classes with $ and non-ASCII, '<init>', lines 0 and 2^64-1, files '' and 'x(y)', depth <=3 (quick) / <=5, top-level exception present or absent; round trip of whole traces, single frames and throwables on the spec and on the implementation.",
         design="4 C17", note="Domain: StackTraceSyntax!TraceOk (top level carries an exception or a frame; see DESIGN section 6 item 7)."),
     "C09": dict(
-        technique="TLA+ decoder of the documented binary format (CacheFormat.tla: layout, WellFormed, Content) applied by TLC to the real bytes ProguardCache::write produced; decoded index compared with the declarative index of the mapping (CacheContent!SameIndex); layout arithmetic model-checked (MC_CacheParse); cache files written by the specification's own writer (CacheWriter.tla, two string-table orders) checked WellFormed/SameIndex by TLC and read by the real reader; big-class and 3-byte-LEB128 string generators; history perturbation before written-file events; strings at every length-prefix boundary",
+        technique="TLA+ decoder of the documented binary format (CacheFormat.tla: layout, WellFormed, Content) applied by TLC to the real bytes ProguardCache::write produced; decoded index compared with the declarative index of the mapping (CacheContent!SameIndex); layout arithmetic model-checked (MC_CacheParse); cache files written by the specification's own writer (CacheWriter.tla, two string-table orders) checked WellFormed/SameIndex by TLC and read by the real reader; big-class and 3-byte-LEB128 string generators; history perturbation before written-file events; strings at every length-prefix boundary; a production-sized file (70k / 200k entries under one name) read by the harness's own field reader, keys streamed run-length encoded, TLC checks implied length, class order, tiling and key order",
         text="For generated mappings (0..45 classes, member-less classes, shared/non-ASCII/>127-byte strings, noise) and corpus files, TLC decodes the written bytes itself and checks magic/version/counts, strict class order, exact tiling of member and by-params ranges in class order, intra-class order, 8-byte alignment with zero padding, string readability/sentinels, exact length, equality of the decoded index with Index!Blocks, and that the library self-test returned.",
         design="4 C09", note="Files are decoded whole by TLC (sizes up to a few 10 KB); sampled inputs. Trusted: TLC, Json module, harness byte recorder (canary-checked)."),
     "C11": dict(
@@ -72,7 +72,7 @@ CHECKS = {
         text="Every accepted corrupted buffer must let class/method/frame (line, file, params; lines 0, 2^31, 2^32-2..2^32, 2^64-1)/throwable/text+typed trace/signature/Debug queries return, and every returned &str must point into the buffer or the query.",
         design="4 C12", note="Memory safety of the two unsafe Pod casts is observed only through results. Sampled corruptions (1.4k quick / 7k thorough buffers)."),
     "C13": dict(
-        technique="MC_LineArith for mapper and cache (unchecked variants refuted, saturating variants clean at small width); wild sessions (byte soups, mutated files, grammar with numbers around 2^32 and 2^64, empty names, invalid UTF-8) driven through mapper x2, cache write+parse, queries with extreme lines, arbitrary Unicode trace/signature text; TLC trace spec requires every call to complete and in-domain answers to equal Retrace!Answer; bounded-exhaustive token soups (all strings of <=5/6 tokens over the delimiters and multi-byte characters) through signature and stack-trace entry points, summarised per API; LineArithProofs (TLAPS): no intermediate value or result of the line rule leaves 0..UMax, for every width",
+        technique="MC_LineArith for mapper and cache (unchecked variants refuted, saturating variants clean at small width); wild sessions (byte soups, mutated files, grammar with numbers around 2^32 and 2^64, empty names, invalid UTF-8) driven through mapper x2, cache write+parse, queries with extreme lines, arbitrary Unicode trace/signature text; TLC trace spec requires every call to complete and in-domain answers to equal Retrace!Answer; bounded-exhaustive token soups (all strings of <=5/6 tokens over the delimiters and multi-byte characters) through signature and stack-trace entry points, summarised per API; LineArithProofs (TLAPS): no intermediate value or result of the line rule leaves 0..UMax, for every width; scale probes (Trace_Scale): one call per child process on descriptors and stack-trace texts of 10^5 tokens / lines / levels, a stack overflow or abort is recorded as the outcome",
         text="Harness built with overflow checks: a wrapping overflow is a panic and is recorded as data; any panic or Err from build/write/parse/query rejects the trace.",
         design="4 C13", note="Sampled inputs (90 quick / 400 thorough sessions x 60 queries + 24 other API calls each)."),
     "C18": dict(
